@@ -217,16 +217,24 @@ def _eye(env, mu0, mu1, s0, s1):
 def scen_estimator(env, cfg):
     mod, M = cfg['mod'], cfg.get('M')
     L = env.lib.ook if mod == 'ook' else env.lib.ppm
-    mu0 = env.real('mu0', -1, 1)
-    d = env.real('d', 0.05, 5)
+    fx = cfg.get('fixed')           # concrete eye (levels away from zero): the 1000-point grid collapses, the closed form is decided at once
+    mu0 = env.const(fx[0]) if fx else env.real('mu0', -1, 1)
+    d = env.const(fx[1]) if fx else env.real('d', 0.05, 5)
     mu1 = mu0 + d
-    s0 = env.real('s0', 0.01, 1)
-    s1 = env.real('s1', 0.01, 1)
+    s0 = env.const(fx[2]) if fx else env.real('s0', 0.01, 1)
+    s1 = env.const(fx[3]) if fx else env.real('s1', 0.01, 1)
     e = _eye(env, mu0, mu1, s0, s1)
     th = L.THRESHOLD_EST(e) if mod == 'ook' else L.THRESHOLD_EST(e, M)
     env.check('the estimated threshold lies in [mu0, mu1]', env.And(env.le(mu0, th, 5), env.le(th, mu1, 5)))
     if mod != 'ook':
-        return          # the PPM estimator's error expression over the 1000-point grid is beyond the solver budget (see OUTSIDE)
+        # hard decision: the closed form in the estimated threshold (the threshold term itself is shared, so the 1000-point grid does not
+        # have to be re-decided); bounds / monotonicity of the grid minimum stay outside (see OUTSIDE)
+        if cfg.get('hard_form'):
+            ber = L.BER_analizer('estimator', eye_obj=e, M=M, decision='hard')
+            pe = 1 - _Qf(env, (th - mu1) / s1) * (1 - _Qf(env, (th - mu0) / s0)) ** (M - 1)
+            env.check("BER_analizer('estimator', hard) == M/(2(M-1)) * (1 - Q((th-mu1)/s1) * (1-Q((th-mu0)/s0))^(M-1)) at th = THRESHOLD_EST "
+                      "(depends on the levels only through th-mu0 and th-mu1)", env.eq(ber, pe * M / 2 / (M - 1), scale=1))
+        return
     ber = L.BER_analizer('estimator', eye_obj=e)
     exp = (_Qf(env, (mu1 - th) / s1) + _Qf(env, (th - mu0) / s0)) / 2
     env.check("BER_analizer('estimator') is the error expression evaluated at THRESHOLD_EST", env.eq(ber, exp, scale=1))
@@ -415,6 +423,9 @@ def configs(tier):
     out.append(('estimator-ook', scen_estimator, dict(mod='ook', shift=False), {'validate': 2}))
     for M in ((4,) if q else (2, 4, 16)):
         out.append((f'estimator-ppm{M}', scen_estimator, dict(mod='ppm', M=M, shift=False), {'validate': 2}))
+        out.append((f'estimator-ppm{M}-hard-form', scen_estimator, dict(mod='ppm', M=M, shift=False, hard_form=True), {'validate': 2}))
+        for k, fx in enumerate((('-0.2', '1.0', '0.1', '0.15'), ('0.25', '1.0', '0.1', '0.1'), ('0.05', '0.6', '0.2', '0.1'))):
+            out.append((f'estimator-ppm{M}-hard-form-fixed{k}', scen_estimator, dict(mod='ppm', M=M, shift=False, hard_form=True, fixed=fx), {'validate': 1}))
     for M1, M2, first in ((4, 64, 'threshold'), (2, 256, 'hard'), (64, 4, 'soft')) if q else \
             ((4, 64, 'threshold'), (2, 256, 'hard'), (64, 4, 'soft'), (8, 16, 'threshold'), (256, 2, 'hard'), (4, 8, 'soft')):
         out.append((f'estimator-history-ppm{M1}-then-{M2}-{first}', scen_estimator_history,
